@@ -51,6 +51,18 @@ TEMPLATES = [
     fn("kommt_vor", [("x", GT, False), ("l", TL(GT), False)], TW, [{"k": "foreach", "v": "e", "t": GT, "idx": "", "in": ident("l"), "body": [if_(bin_("eq", ident("e"), ident("x")), [RET(lit(W(True)))])]}, RET(lit(W(False)))]),
     fn("vorgabe", [("x", GT, False)], GT, [var("d", GT, {"k": "std", "t": GT}, False), RET(ident("d"))]),
 ]
+# two generic functions share one alias ("die Beschreibung von <x>"; their type parameters have different names, otherwise the second alias is a duplicate): the first can only be instantiated for a Text or a list
+# (its body takes the length), for every other type its instantiation fails and the call means the second one.  `beschreibung`
+# is the name of that overloaded call; which template it means is decided by the bound type (DISPATCH).
+TEMPLATES.append(fn("beschr_laenge", [("x", G("A"), False)], TT, [var("n", TZ, un("len", ident("x")), False), RET(bin_("cat", lit(T("Laenge ")), cast(TT, ident("n"))))]))
+TEMPLATES.append(fn("beschr_sonst", [("x", G("B"), False)], TT, [RET(lit(T("irgendein Wert")))]))
+TEMPLATES.append(fn("zweimal", [("w", GT, False)], TT, [var("e1", TT, call("beschreibung", [("x", ident("w"))]), False), var("e2", TT, call("beschreibung", [("x", ident("w"))]), False),
+                                                      RET(bin_("cat", ident("e1"), bin_("cat", lit(T(" / ")), ident("e2"))))]))
+TEMPLATES.append(fn("zweimal_aussen", [("w", GT, False)], TT, [var("a1", TT, call("zweimal", [("w", ident("w"))]), False), RET(bin_("cat", ident("a1"), bin_("cat", lit(T(" | ")), call("beschreibung", [("x", ident("w"))]))))]))
+DISPATCH = {"beschreibung": lambda b: "beschr_laenge" if (b["T"] == TT or "l" in b["T"]) else "beschr_sonst"}
+DISPATCH_ALL = {"beschreibung": ["beschr_laenge", "beschr_sonst"]}
+for _n in ("beschreibung", "beschr_laenge", "beschr_sonst"):
+    ddp.ALIAS_FORMS[_n] = "die Beschreibung von <x>"
 # a generic body that names a type of its own module: the alias Wert (= Kommazahl) is private to the declaring module,
 # the importing module declares another type under the same name
 TWERT = {"b": "K", "alias": "Wert"}
@@ -90,6 +102,8 @@ def cases(tier, rng):
         cs.append(Case("gen:kopiere_n:%s" % enc, gcall("kopiere_n", b, [("x", a), ("n", zl(3))]), TL(t)) if "l" not in t else None)
         su = [var("ga", t, a, False), var("gb", t, v2, False), {"k": "expr", "e": gcall("tausche", b, [("a", lvid("ga")), ("b", lvid("gb"))])}]
         cs.append(Case("gen:tausche:%s" % enc, semgen.pair2(ident("ga"), t, ident("gb"), t)[0], semgen.pair2(ident("ga"), t, ident("gb"), t)[1], su))
+        cs.append(Case("gen:zweimal:%s" % enc, gcall("zweimal", b, [("w", a)]), TT))
+        cs.append(Case("gen:zweimal_aussen:%s" % enc, gcall("zweimal_aussen", b, [("w", v2)]), TT))
         if enc in ("Z", "K"):
             cs.append(Case("gen:halbiere:%s" % enc, gcall("halbiere", b, [("x", zl(7) if enc == "Z" else lit(K(7, 1)))]), TK))
         if lst:
@@ -150,6 +164,9 @@ def specialise(P):
         # inner generic calls inherit the binding of the type parameter they pass on
         def fix(x):
             if isinstance(x, dict):
+                if x.get("k") == "call" and x["f"] in DISPATCH:
+                    x["f"] = DISPATCH[x["f"]](b)
+                    x["inst"] = {TBYNAME[x["f"]]["params"][0]["t"]["g"]: b["T"]}      # the candidates name their type parameter differently (A, B)
                 if x.get("k") == "call" and x["f"] in TBYNAME and "inst" not in x:
                     x["inst"] = dict(b)
                 for v in x.values():
@@ -207,6 +224,8 @@ def generic_program(P):
             if isinstance(x, dict):
                 if x.get("k") == "call" and x["f"] in TBYNAME:
                     inner.append(x["f"])
+                if x.get("k") == "call" and x["f"] in DISPATCH_ALL:
+                    inner.extend(DISPATCH_ALL[x["f"]])
                 for v in x.values():
                     walk(v)
             elif isinstance(x, list):
